@@ -97,6 +97,7 @@ var (
 	ErrDuplicate  = errors.New("duplicate parameter name")
 	ErrBadRegexp  = errors.New("regexp does not compile")
 	ErrUnbalanced = errors.New("unbalanced braces")
+	ErrGroupName  = errors.New("name of a regexp parameter is not usable as a capture name")
 )
 
 // Pattern is a parsed pattern.
@@ -166,6 +167,10 @@ func Parse(src string, ic Icpt) (*Pattern, error) {
 			}
 		default:
 			pm.Kind = Regex
+			// the value is captured by name: the name has to be one the regexp syntax accepts for a group
+			if _, err := regexp.Compile("(?P<" + name + ">x)"); err != nil && !pm.Ignore {
+				return nil, ErrGroupName
+			}
 			if _, err := regexp.Compile(rule); err != nil { // the rule itself must be a regexp ("a)|(b" is not)
 				return nil, ErrBadRegexp
 			}
